@@ -7,6 +7,8 @@ import (
 	"fmt"
 	"sort"
 
+	"github.com/pkg/errors"
+
 	"verif/simrt"
 )
 
@@ -102,4 +104,10 @@ func VReleaseJoin(s *Server) {
 	simrt.WLock(&c.mu, "harness")
 	c.markAsJoined()
 	simrt.WUnlock(&c.mu)
+}
+
+// VIsNotAllowed reports whether err is the state gate's refusal.
+func VIsNotAllowed(err error) bool {
+	_, ok := errors.Cause(err).(apiMethodNotAllowedError)
+	return ok
 }
